@@ -1,5 +1,16 @@
-import Hive.Base.Proto
-open Hive.Proto
+import Hive.Model.Deser
+import Hive.Model.JsonDec
+import Hive.Model.Stream
 
-/-- Placeholder driver: answers `unimplemented` to every request. -/
-def main : IO Unit := run () (fun s _ => (s, "unimplemented"))
+/-- One request per line; every request is independent (no state). -/
+def stepC02 (toks : List String) : String :=
+  match toks with
+  | "d" :: _ => Hive.Deser.stepLine toks
+  | "m" :: _ => Hive.Deser.stepLine toks
+  | "tu" :: _ => Hive.Deser.stepLine toks
+  | "sr" :: _ => Hive.Stream.stepLine toks
+  | "j" :: _ => Hive.JsonDec.stepLine toks
+  | "x" :: _ => "oracle-only"
+  | _ => "bad-op"
+
+def main : IO Unit := Hive.Proto.run () (fun s toks => (s, stepC02 toks))
